@@ -9,7 +9,7 @@ JOBS = [
   Job("c09.mark_and_signal", TU, "h_fe_mark_and_signal",
       replace=["myth_cond_signal/fe_cond_signal_contract", "myth_mutex_unlock_body/fe_unlock_contract"],
       fuc=["myth_felock_mark_and_signal_body"], timeout=200),
-  Job("c09.lock_unlock", TU, "h_fe_lock_unlock", replace=["myth_mutex_lock_body/fe_lock_contract", "myth_mutex_unlock_body/fe_unlock_contract"],
+  Job("c09.lock_unlock", TU, "h_fe_lock_unlock", replace=["myth_mutex_lock_body/fe_lock_contract", "myth_mutex_unlock_body/fe_unlock_contract", "myth_cond_wait/fe_never_waits_contract"], cbmc=["--unwind", "3"],
       fuc=["myth_felock_lock_body", "myth_felock_unlock_body", "myth_felock_status_body"], timeout=200),
   Job("c09.init", TU, "h_fe_init", fuc=["myth_felock_init_body", "myth_mutex_init_body", "myth_cond_init_body"], timeout=200),
 ]
